@@ -266,6 +266,10 @@ def programs(tier):
     reg("slice(x3)[a:b]", lambda w, E: p_slice(w, source(w, E, "x", (3,)), raw_index(E, (F,))), 2)
     reg("slice(x2x2)[a:b,i]", lambda w, E: p_slice(w, source(w, E, "x", (2, 2)), raw_index(E, (F, "i"))), 3)
     reg("slice(x2x2)[::-1,None,c:]", lambda w, E: p_slice(w, source(w, E, "x", (2, 2)), raw_index(E, ((0, 0, -1), "n", (1, 0, None)))), 3)
+    reg("slice(x3,zero-width chunks allowed)[a:b:-1]", lambda w, E: p_slice(w, source(w, E, "x", (3,), lo=0), raw_index(E, ((1, 1, -1),))), 4)
+    reg("slice(x3,zero-width chunks allowed)[::-2]", lambda w, E: p_slice(w, source(w, E, "x", (3,), lo=0), raw_index(E, ((0, 0, -2),))), 3)
+    reg("slice(x3,zero-width chunks allowed)[a:b]", lambda w, E: p_slice(w, source(w, E, "x", (3,), lo=0), raw_index(E, (F,))), 3)
+    reg("(x3+y3)(zero-width chunks allowed)", lambda w, E: _add_unaligned(w, E, (3,), (3,), "coarse", None, lo=0), 4)
     reg("rechunk(x2->3)", lambda w, E: _rechunk_prog(w, E, (2,), (3,)), 2)
     reg("rechunk(x2x2->1x3)", lambda w, E: _rechunk_prog(w, E, (2, 2), (1, 3)), 3)
     reg("x2+y2(aligned)", lambda w, E: _add_aligned(w, E, (2,)))
@@ -341,10 +345,10 @@ def _add_aligned(w, E, blocks):
     return p_elemwise(w, operator.add, x, y)
 
 
-def _add_unaligned(w, E, bx, by, policy="coarse", hi=None):
+def _add_unaligned(w, E, bx, by, policy="coarse", hi=None, lo=1):
     set_policy(w, policy)
-    x = source(w, E, "x", bx, hi=hi)
-    y = source(w, E, "y", by, shape=x.node.shape, hi=hi)
+    x = source(w, E, "x", bx, hi=hi, lo=lo)
+    y = source(w, E, "y", by, shape=x.node.shape, hi=hi, lo=lo)
     return p_elemwise(w, operator.add, x, y)
 
 
